@@ -1,6 +1,6 @@
 /-
   SpVerif.Model.Replace — executable model of `simple_parsing/replace.py` (replace, replace_subgroups,
-  _unflatten_selection_dict) and `simple_parsing/utils.py:907-951` (unflatten, unflatten_split).
+  _unflatten_selection_dict) and `simple_parsing/utils.py:912-956` (unflatten, unflatten_split).  Line numbers refer to /repo at c681aea.
 
   Instances are trees; every field carries its `init` flag and (for `init=False` fields) the class
   default that `dataclasses.replace` re-creates.  Dicts are insertion-ordered association lists.
@@ -64,7 +64,7 @@ def ddel : Dict → Str → Dict
 
 def dkeys (d : Dict) : List Str := d.map (·.1)
 
-/-! ### utils.py:907-921 `unflatten`, 936-951 `unflatten_split` -/
+/-! ### utils.py:912-926 `unflatten`, 941-956 `unflatten_split` -/
 
 /-- inner loop of `unflatten` for one `(keys, value)` item: walk `keys[:-1]` with `setdefault(part, {})`
     (asserting each level is a dict), then `sub[keys[-1]] = value`. -/
@@ -98,7 +98,7 @@ def splitDot (k : Str) : List Str := splitOnChar '.' k
 def unflattenSplit (ch : Dict) : Out Dict :=
   unflattenFrom [] (ch.map (fun kv => (splitDot kv.1, kv.2)))
 
-/-! ### replace.py:37-110 `replace` -/
+/-! ### replace.py:37-112 `replace` -/
 
 /-- keyword names that collide with `replace`'s own parameters.  Only the *top-level keyword form*
     `replace(obj, **changes)` is affected (Python itself rejects / rebinds such a call); nested change
@@ -114,21 +114,21 @@ def rebuild (fs : List Fld) : List Fld :=
   fs.map (fun f => match f with | .mk n i v d => if i then .mk n i v d else .mk n i d d)
 
 mutual
-/-- replace.py:88-110 for keyword-style changes (`changes_dict` falsy). -/
+/-- replace.py:88-112 for keyword-style changes (`changes_dict` falsy). -/
 def replaceKw : Val → Dict → Out Val
   | .inst cls fs, changes =>
     match unflattenSplit changes with                       -- :88
     | .error e => .error e
     | .ok ch =>
-      match replaceFields fs ch with                        -- :91-104
+      match replaceFields fs ch with                        -- :91-106
       | .error e => .error e
-      | .ok (fs', []) => .ok (.inst cls (rebuild fs'))      -- :110
-      | .ok (_, _ :: _) => .error (.raise .typeError)       -- :108 leftovers → unexpected keyword argument
+      | .ok (fs', []) => .ok (.inst cls (rebuild fs'))      -- :112
+      | .ok (_, _ :: _) => .error (.raise .typeError)       -- :110 leftovers → unexpected keyword argument
   | _, changes =>
     match unflattenSplit changes with
     | .error e => .error e
     | .ok _ => .error (.raise .typeError)                   -- `dataclasses.fields(obj)` on a non-dataclass
-/-- the field loop (replace.py:91-104); returns the new field list and the leftover changes -/
+/-- the field loop (replace.py:91-106); returns the new field list and the leftover changes -/
 def replaceFields : List Fld → Dict → Out (List Fld × Dict)
   | [], ch => .ok ([], ch)
   | .mk n i v d :: rest, ch =>
@@ -147,7 +147,7 @@ def replaceFields : List Fld → Dict → Out (List Fld × Dict)
           match replaceFields rest (ddel ch n) with
           | .ok (r, lo) => .ok (.mk n i v' d :: r, lo)
           | .error e => .error e
-      | _, _ =>                                             -- :103
+      | _, _ =>                                             -- :105
         match replaceFields rest (ddel ch n) with
         | .ok (r, lo) => .ok (.mk n i x d :: r, lo)
         | .error e => .error e
@@ -197,15 +197,15 @@ def refEdit : Val → List Str → Val → Option Val
     | Option.none => Option.none
   | _, _ :: _, _ => Option.none
 
-/-! ### replace.py:184-232 `_unflatten_selection_dict(recursive=False)`, 113-181 `replace_subgroups` -/
+/-! ### replace.py:190-238 `_unflatten_selection_dict(recursive=False)`, 115-187 `replace_subgroups` -/
 
 def keyword : Str := "__key__".toList
 
-/-- first pass (:207-211): top-level keys that have at least one dotted entry -/
+/-- first pass (:213-217): top-level keys that have at least one dotted entry -/
 def selTops (sel : Dict) : List Str :=
   sel.filterMap (fun kv => match splitDot kv.1 with | t :: _ :: _ => some t | _ => Option.none)
 
-/-- second pass (:213-225) for one item -/
+/-- second pass (:219-231) for one item -/
 def selStep (tops : List Str) (dc : Dict) (kv : Str × Val) : Dict :=
   match splitDot kv.1 with
   | top :: rest =>
@@ -236,54 +236,54 @@ def sgMeta (tbl : SgTable) (cls fname : Str) : SgMeta :=
   | some e => e.2
   | Option.none => { hasDc := false, isOpt := false, sg := Option.none, fac := Option.none }
 
-/-- replace.py:153-178: the new member chosen by `value_of_selection`; `cur` is the field's current value -/
+/-- replace.py:155-179: the new member chosen by `value_of_selection`; `cur` is the field's current value -/
 def pickMember (m : SgMeta) (cur : Val) (vos : Val) : Out Val :=
   match vos with
-  | .type _ mk => .ok mk                                    -- :153 dataclass type → `value_of_selection()`
-  | .inst c fs => .ok (.inst c fs)                          -- :155 instance → deepcopy
+  | .type _ mk => .ok mk                                    -- :155 dataclass type → `value_of_selection()`
+  | .inst c fs => .ok (.inst c fs)                          -- :157 instance → deepcopy
   | _ =>
     match m.sg with
-    | some (a :: alts) =>                                   -- :157 truthy `metadata["subgroups"]`
+    | some (a :: alts) =>                                   -- :159 truthy `metadata["subgroups"]`
       match vos with
       | .str key =>
         match dget (a :: alts) key with
         | some alt => .ok alt
         | Option.none => .error (.raise .keyError)
-      | _ => .error (.raise .assertionError)                -- :158
+      | _ => .error (.raise .assertionError)                -- :160
     | _ =>
       match vos with
       | .none =>
-        if m.isOpt then .ok .none                           -- :166
-        else match cur with                                 -- :168-173 (hasDc already checked at :140)
+        if m.isOpt then .ok .none                           -- :168
+        else match cur with                                 -- :170-175 (hasDc already checked at :142)
           | .inst c fs => .ok (.inst c fs)                  -- only subgroups below are replaced: keep the current instance
           | _ => match m.fac with
             | some f => .ok f
             | Option.none => .error (.raise .typeError)     -- `MISSING()` is not callable
-      | _ => .error (.raise .valueError)                    -- :176
+      | _ => .error (.raise .valueError)                    -- :177
 
-/-- replace.py:145-151: `(value_of_selection, child_selections)` of one selection entry -/
+/-- replace.py:147-153: `(value_of_selection, child_selections)` of one selection entry -/
 def selSplit : Val → Val × Dict
   | .dict sd => ((dget sd keyword).getD .none, ddel sd keyword)
   | x => (x, [])
 
-/-- the field loop of `replace_subgroups` (:128-180); `recur` is the recursive call at :176 -/
+/-- the field loop of `replace_subgroups` (:130-186); `recur` is the recursive call at :182 -/
 def sgFields (tbl : SgTable) (recur : Val → Dict → Out Val) (cls : Str) : List Fld → Dict → Out (List Fld)
   | [], _ => .ok []
   | .mk n i v d :: rest, sel =>
-    if !i then .error (.raise .valueError) else             -- :129 (any non-init field, selected or not)
+    if !i then .error (.raise .valueError) else             -- :131 (any non-init field, selected or not)
     match dget sel n with
-    | Option.none =>                                        -- :132
+    | Option.none =>                                        -- :134
       match sgFields tbl recur cls rest sel with
       | .ok r => .ok (.mk n i v d :: r)
       | .error e => .error e
     | some s =>
       let m := sgMeta tbl cls n
-      if !m.hasDc then .error (.raise .valueError) else     -- :140
-      let vc : Val × Dict := selSplit s                     -- :145-151
+      if !m.hasDc then .error (.raise .valueError) else     -- :142
+      let vc : Val × Dict := selSplit s                     -- :147-153
       match pickMember m v vc.1 with
       | .error e => .error e
       | .ok fv =>
-        match (if vc.2.isEmpty then .ok fv else recur fv vc.2) with   -- :175-178
+        match (if vc.2.isEmpty then .ok fv else recur fv vc.2) with   -- :181-184
         | .error e => .error e
         | .ok nv =>
           match sgFields tbl recur cls rest (ddel sel n) with
@@ -293,11 +293,11 @@ def sgFields (tbl : SgTable) (recur : Val → Dict → Out Val) (cls : Str) : Li
 /-- `replace_subgroups(obj, selections)`; `fuel` bounds the nesting of selections (each recursive call
     receives a strictly smaller selection dict), exhaustion is reported as unmodelled. -/
 def replaceSg (tbl : SgTable) : Nat → Val → Dict → Out Val
-  | _, obj, [] => .ok obj                                   -- :123 `if not selections: return obj`
+  | _, obj, [] => .ok obj                                   -- :125 `if not selections: return obj`
   | 0, _, _ :: _ => .error (.unmodelled "fuel".toList)
   | fuel + 1, .inst cls fs, s :: sel =>
     match sgFields tbl (replaceSg tbl fuel) cls fs (unflattenSel (s :: sel)) with
-    | .ok fs' => .ok (.inst cls (rebuild fs'))              -- :181
+    | .ok fs' => .ok (.inst cls (rebuild fs'))              -- :187 (leftover selection keys are dropped, not checked)
     | .error e => .error e
   | _ + 1, _, _ :: _ => .error (.raise .typeError)          -- `dataclasses.fields(obj)` on a non-dataclass
 
